@@ -1,5 +1,6 @@
 use super::SMap;
-use crate::lterm::LTerm;
+use crate::compound::CompoundObject;
+use crate::lterm::{LTerm, LTermInner};
 use crate::relation::diseq::DisequalityConstraint;
 use crate::state::constraint::Constraint;
 use crate::engine::Engine;
@@ -33,10 +34,13 @@ where
         let mut purified_cstore = ConstraintStore::new();
         for constraint in self.0.into_iter() {
             if let Some(tree_constraint) = constraint.downcast_ref::<DisequalityConstraint<U, E>>() {
+                // A constraint is relevant only if every variable it mentions is a
+                // reified variable; a constraint on a variable that is not part of the
+                // answer can always be satisfied and says nothing about the answer.
                 if tree_constraint
                     .smap_ref()
                     .iter()
-                    .any(|(u, _)| r.is_anyvar(u))
+                    .all(|(u, v)| Self::only_reified(r, u) && Self::only_reified(r, v))
                 {
                     purified_cstore.insert(constraint);
                 }
@@ -45,6 +49,27 @@ where
             }
         }
         purified_cstore
+    }
+
+    /// Returns true if every variable in the term `t` is reified in `r`.
+    fn only_reified(r: &SMap<U, E>, t: &LTerm<U, E>) -> bool {
+        fn object_only_reified<U: User, E: Engine<U>>(
+            r: &SMap<U, E>,
+            object: &dyn CompoundObject<U, E>,
+        ) -> bool {
+            object.children().all(|child| match child.as_term() {
+                Some(term) => ConstraintStore::only_reified(r, term),
+                None => object_only_reified(r, child),
+            })
+        }
+        match t.as_ref() {
+            LTermInner::Var(_, _) => r.is_anyvar(t),
+            LTermInner::Cons(head, tail) => {
+                Self::only_reified(r, head) && Self::only_reified(r, tail)
+            }
+            LTermInner::Compound(object) => object_only_reified(r, object.as_ref()),
+            _ => true,
+        }
     }
 
     /// Do walk_star for each substitution of each constraint
